@@ -7,6 +7,7 @@ require (
 	github.com/benbjohnson/clock v1.3.5
 	github.com/flynn/noise v1.1.0
 	github.com/ipfs/go-datastore v0.8.2
+	github.com/libp2p/go-buffer-pool v0.1.0
 	github.com/libp2p/go-libp2p v0.0.0
 	github.com/libp2p/go-libp2p-asn-util v0.4.1
 	github.com/libp2p/go-msgio v0.3.0
@@ -31,7 +32,6 @@ require (
 	github.com/jbenet/go-temp-err-catcher v0.1.0 // indirect
 	github.com/klauspost/cpuid/v2 v2.2.10 // indirect
 	github.com/koron/go-ssdp v0.0.6 // indirect
-	github.com/libp2p/go-buffer-pool v0.1.0 // indirect
 	github.com/libp2p/go-flow-metrics v0.2.0 // indirect
 	github.com/libp2p/go-netroute v0.4.0 // indirect
 	github.com/libp2p/go-reuseport v0.4.0 // indirect
